@@ -36,8 +36,30 @@ func optPtr(v int8) *bool {
 	return trie.Bool(v == 1)
 }
 
+// GoOpt builds the option struct the way callers do. For half of the cases (decided by the
+// case itself, so that a case always gets the same form) the fields that are true share ONE
+// bool and the fields that are false share another - the `yes, no := trie.Bool(true),
+// trie.Bool(false)` idiom: an implementation that writes through a pointer it was given
+// changes the caller's other options with it.
 func (c *TrieCase) GoOpt() trie.Opt {
-	return trie.Opt{DedupValue: optPtr(c.Opt[0]), InnerPrefix: optPtr(c.Opt[1]), LeafPrefix: optPtr(c.Opt[2]), Complete: optPtr(c.Opt[3])}
+	h := len(c.Keys) + len(c.ID)
+	for _, ch := range c.ID {
+		h = h*31 + int(ch)
+	}
+	if h%2 == 0 {
+		return trie.Opt{DedupValue: optPtr(c.Opt[0]), InnerPrefix: optPtr(c.Opt[1]), LeafPrefix: optPtr(c.Opt[2]), Complete: optPtr(c.Opt[3])}
+	}
+	yes, no := trie.Bool(true), trie.Bool(false)
+	sh := func(v int8) *bool {
+		switch v {
+		case 0:
+			return no
+		case 1:
+			return yes
+		}
+		return nil
+	}
+	return trie.Opt{DedupValue: sh(c.Opt[0]), InnerPrefix: sh(c.Opt[1]), LeafPrefix: sh(c.Opt[2]), Complete: sh(c.Opt[3])}
 }
 
 // normalized option view (reference semantics of the four options)
